@@ -907,6 +907,11 @@ class APIConnection:
     def process_packet(self, msg_type_proto: _int, data: _bytes) -> None:
         """Process an incoming packet."""
         debug_enabled = self._debug_enabled
+        if self.connection_state is CONNECTION_STATE_CLOSED:
+            # The frame helper keeps parsing frames that arrived in the same
+            # chunk as the one that closed the connection; nothing may be
+            # delivered to a subscriber (or answered) once we are closed
+            return
         try:
             # MESSAGE_NUMBER_TO_PROTO is 0-indexed
             # but the message type is 1-indexed
